@@ -41,13 +41,19 @@ MacPairs == <<[d |-> <<68, 168, 66, 16, 32, 48>>, s |-> <<0, 27, 33, 6, 91, 122>
               [d |-> <<96, 1, 2, 3, 4, 5>>, s |-> <<6, 27, 33, 7, 91, 122>>],               \* 60:.. / 06:..       : raw IPv6 look-alike
               [d |-> <<30, 0, 9, 9, 96, 9>>, s |-> <<0, 27, 33, 7, 6, 122>>],               \* 1e:00:..:..:6x / ..:06 : loopback IPv6 look-alike
               [d |-> <<30, 0, 0, 0, 69, 0>>, s |-> <<0, 40, 0, 0, 64, 0>>]>>                \* 1e:00:00:00:45:00   : loopback IPv4 look-alike
+\* mapped: IPv6 packets whose addresses are IPv4-mapped (::ffff:10.0.0.1 -> ::ffff:10.0.0.2): they are IPv6 endpoints, so IPv4 filter entries
+\* (10.0.0.1, 10.0.0.0/8) do not apply to them and IPv6 entries do
+Mapped(b4) == <<0, 0, 0, 0, 0, 0, 0, 0, 0, 0, 255, 255>> \o b4
+MappedShapes == {[link |-> l, ver |-> 6, vnib |-> 6, ihl |-> 5, proto |-> 6, cut |-> 0, mac |-> 0, mapped |-> TRUE] : l \in {"eth", "raw"}}
 MacOf(s) == IF "mac" \in DOMAIN s THEN s.mac ELSE 0
 MacShapes == {[link |-> "eth", ver |-> v, vnib |-> v, ihl |-> 5, proto |-> 6, cut |-> 0, mac |-> m] : v \in {4, 6}, m \in 1..Len(MacPairs)}
-ShapeSeq == SetToSeq(MacShapes \cup {[mac |-> 0] @@ s : s \in {[link |-> s.link, ver |-> s.ver, vnib |-> s.vnib, ihl |-> s.ihl, proto |-> s.proto, cut |-> 0] : s \in Shapes} \cup CutShapes})
+ShapeSeq == SetToSeq(MappedShapes \cup MacShapes \cup {[mac |-> 0] @@ s : s \in {[link |-> s.link, ver |-> s.ver, vnib |-> s.vnib, ihl |-> s.ihl, proto |-> s.proto, cut |-> 0] : s \in Shapes} \cup CutShapes})
 
+BS(s, b) == IF "mapped" \in DOMAIN s THEN Mapped(Src4) ELSE b.src
+BD(s, b) == IF "mapped" \in DOMAIN s THEN Mapped(Dst4) ELSE b.dst
 Base(s, rev) ==
   LET b == BaseHdr(s.ver) IN
-  [b EXCEPT !.ihl = s.ihl, !.vnib = s.vnib, !.dmac = IF MacOf(s) = 0 THEN b.dmac ELSE MacPairs[MacOf(s)].d, !.smac = IF MacOf(s) = 0 THEN b.smac ELSE MacPairs[MacOf(s)].s, !.proto = s.proto, !.src = IF rev THEN b.dst ELSE b.src, !.dst = IF rev THEN b.src ELSE b.dst,
+  [(IF "mapped" \in DOMAIN s THEN [b EXCEPT !.src = Mapped(Src4), !.dst = Mapped(Dst4)] ELSE b) EXCEPT !.ihl = s.ihl, !.vnib = s.vnib, !.dmac = IF MacOf(s) = 0 THEN b.dmac ELSE MacPairs[MacOf(s)].d, !.smac = IF MacOf(s) = 0 THEN b.smac ELSE MacPairs[MacOf(s)].s, !.proto = s.proto, !.src = IF rev THEN BD(s, b) ELSE BS(s, b), !.dst = IF rev THEN BS(s, b) ELSE BD(s, b),
             !.sport = IF rev THEN 80 ELSE 40000, !.dport = IF rev THEN 40000 ELSE 80]
 Seg(s, rev, flags, seqlo, payload) == [Base(s, rev) EXCEPT !.flags = flags, !.seq = <<0, 0, 0, seqlo>>, !.ack = IF flags = SYN THEN Zero4 ELSE <<0, 0, 0, 9>>, !.payload = payload]
 
@@ -84,7 +90,9 @@ Cfgs == <<
   Cfg(FALSE, <<>>, <<>>, <<[nets |-> <<[a |-> A(<<10, 0, 0, 0>>), p |-> 30]>>, cs |-> FALSE, cd |-> TRUE]>>),
   Cfg(TRUE,  <<>>, <<>>, <<[nets |-> <<[a |-> A(<<10, 0, 0, 2>>), p |-> 32], [a |-> A(Dst6), p |-> 128]>>, cs |-> TRUE, cd |-> FALSE]>>),
   Cfg(FALSE, <<PF(<<>>, <<80>>, FALSE)>>, <<[addrs |-> <<A(Dst4), A(Dst6)>>, cs |-> FALSE, cd |-> TRUE]>>, <<[nets |-> <<[a |-> A(<<10, 0, 0, 0>>), p |-> 8], [a |-> A(Src6), p |-> 32]>>, cs |-> TRUE, cd |-> TRUE]>>),
-  Cfg(TRUE,  <<PF(<<>>, <<80>>, FALSE)>>, <<[addrs |-> <<A(Dst4), A(Dst6)>>, cs |-> FALSE, cd |-> TRUE]>>, <<>>)
+  Cfg(TRUE,  <<PF(<<>>, <<80>>, FALSE)>>, <<[addrs |-> <<A(Dst4), A(Dst6)>>, cs |-> FALSE, cd |-> TRUE]>>, <<>>),
+  Cfg(FALSE, <<>>, <<>>, <<[nets |-> <<[a |-> A(Mapped(<<0, 0, 0, 0>>)), p |-> 96]>>, cs |-> TRUE, cd |-> TRUE]>>),          \* ::ffff:0:0/96 only
+  Cfg(FALSE, <<>>, <<[addrs |-> <<A(Mapped(Src4)), A(Dst4)>>, cs |-> TRUE, cd |-> TRUE]>>, <<>>)
 >>
 
 Admits(c, h) == FL!ShouldProcess(Cfgs[c], Ep(h), {})
